@@ -270,10 +270,13 @@ def corr_build_hank(ctx, bh, n_dispatch=None, n_short=None, n_whole=None):
         r = rng.randint(1, l)
         p = rng.randint(1, 4)
         Nd = rng.randint(2 * p + 2, 2 * p + 40)
-        Y, Yref = data(l, r, Nd)
         method = methods[k % 3]
         flag = "on" if method == "cov_mm" and k % 2 == 0 else ("truthy" if method == "cov_mm" and k % 12 == 3 else "off")
         nb = rng.choice([0, 1, 2, 2, 3, 3, 4, 5, 7, 100])
+        if flag == "on" and rng.random() < 0.7:  # mostly records with at least one sample per block: the factor itself
+            nb = rng.randint(2, 6)
+            Nd = 2 * p + 1 + nb * rng.randint(1, 6) + rng.randint(0, nb - 1)
+        Y, Yref = data(l, r, Nd)
         build_hank_case(ctx, bh, "build_hank[whole]", Y, Yref, p, method, flag, nb, (method, flag, l, r, p, Nd, nb if flag == "on" else None))
 
 
